@@ -572,6 +572,48 @@ func runRewindRedeliver(rng *rand.Rand, t *vtree, w *vwriter) {
 	}
 }
 
+// a known side block ABOVE the head (a long, light branch) is delivered again with an altered body under the same header: two
+// transactions swapped, one dropped, an uncle added.  The node imports a known block above its head again - from what it is given
+func runKnownTwin(rng *rand.Rand, t *vtree, w *vwriter) {
+	var leaves []*vblk
+	for _, v := range t.blocks {
+		if v.valid && v.parent != nil && len(v.children) == 0 {
+			leaves = append(leaves, v)
+		}
+	}
+	done := 0
+	for _, a := range leaves {
+		for _, b := range leaves {
+			pa, pb := pathTo(a), pathTo(b)
+			if a == b || done >= 1 || len(pb) <= len(pa)+1 {
+				continue
+			}
+			// the first block of b's branch that lies above a's height and carries at least two transactions
+			var v *vblk
+			for _, x := range pb[len(pa):] {
+				if len(x.b.Transactions()) >= 2 && v == nil {
+					v = x
+				}
+			}
+			if v == nil {
+				continue
+			}
+			done++
+			for _, mode := range []string{"archive", "pruning"} {
+				n := t.newNode(w, mode, "known-twin-"+mode)
+				n.insert(pa)
+				upto := pathTo(v)
+				n.insert(upto)
+				for _, kind := range []string{"swaptx", "droptx", "adduncle"} {
+					n.insert([]*vblk{t.corruptKind(rng, v, kind)})
+				}
+				n.insert(pb[len(upto):])
+				n.stop()
+			}
+		}
+	}
+}
+
 // ghost state (known finding D18): siblings a, b with the same state root; a pruning node imports a's branch and is restarted
 // (the state of the common parent is gone), then receives b - stored without execution - and b's descendants, which outweigh
 // a's branch
@@ -721,6 +763,7 @@ func runTree(rng *rand.Rand, tr *vtree, w *vwriter, nHist int, rewind bool, emit
 	runHeaderCorruptions(rng, tr, bw)
 	runRewindRedeliver(rng, tr, bw)
 	runGhost(tr, bw)
+	runKnownTwin(rng, tr, bw)
 	emitTree(tr)
 	for _, e := range buf.evs {
 		w.emit(e)
